@@ -303,7 +303,22 @@ impl<'buf> ModuleReader<'buf> {
             (Some(addr), Some(size), Some(offset)) => {
                 // If loaded in memory, the address will be altered to be absolute.
                 if offset < size {
-                    self.read_name_from_strtab(self.module_memory.absolute(addr), size, offset)
+                    let strtab_offset = if self.module_memory.is_process_memory() {
+                        self.module_memory.absolute(addr)
+                    } else {
+                        // DT_STRTAB holds a virtual address; in a file the table is found at
+                        // the file offset of the segment that is loaded there.
+                        program_headers
+                            .iter()
+                            .find(|h| {
+                                h.p_type == elf::program_header::PT_LOAD
+                                    && h.p_vaddr <= addr
+                                    && addr - h.p_vaddr < h.p_filesz
+                            })
+                            .and_then(|h| (addr - h.p_vaddr).checked_add(h.p_offset))
+                            .unwrap_or(addr)
+                    };
+                    self.read_name_from_strtab(strtab_offset, size, offset)
                 } else {
                     log::warn!("soname strtab offset ({offset}) exceeds strtab size ({size})");
                     Err(Error::NoSoNameEntry)
